@@ -1,6 +1,6 @@
 #!/bin/sh
 # tools/static_seeds.sh [ids...] : run the property's check (no demo) against every seed patch found under /tmp/seed and /verif/seeded
-for id in "$@"; do for v in A B C D; do
+for id in "$@"; do for v in A B C D E F; do
   P=/tmp/seed/$id/_seed/$v/patch.diff; [ -f $P ] || P=/tmp/seed/${id}r2/_seed/$v/patch.diff; [ -f $P ] || P=/verif/seeded/$id-$v/patch.diff; [ -f $P ] || continue
   W=/tmp/seedchk/s$id$v; rm -rf $W; rsync -a --exclude .git --exclude _seed /repo/ $W/; (cd $W && patch -p1 -s < $P) || echo PATCHFAIL
   R=$(cd /verif && VERIF_REPO=$W ./check $id --no-evidence 2>&1 | grep -E "VIOLATION|ANALYSIS-ERROR" | sed 's/replay=.*//' | sort | uniq -c | tr '\n' ';')
